@@ -27,7 +27,7 @@ func Expect(s, p Label) bool {
 		if s.Name == p.Name && s.Type == p.Type {
 			return true // named, same name, any subtype ("subtype named not specified")
 		}
-		if s.Name == p.Name && s.Sub == "" && world.IsIface(p.Type) && world.Implements(s.Type, p.Type) {
+		if s.Name == p.Name && world.IsIface(p.Type) && world.Implements(s.Type, p.Type) {
 			return true // Named: "the name matches AND the value is assignable"
 		}
 		if s.Name == "" && s.Sub == "" {
